@@ -336,7 +336,8 @@ def generate():
             rows.append(f"  ⟨{lean_str(cname)}, {lean_str(name)}, .{k}, ⟨{b(g[0])}, {b(g[1])}, {b(g[2])}⟩, {b(kw)}⟩,")
             info[(cname, name)] = {"klass": k, "guard": g, "where": where, "what": what, "kw": kw}
     rows[-1] = rows[-1].rstrip(",")
-    lines += rows + ["]", "", "end TdVerif.Gen.LockTable", ""]
+    import c05_shapes
+    lines += rows + ["]", "", c05_shapes.lean_def("lockCode", c05_shapes.C05_FUNCS), "", "end TdVerif.Gen.LockTable", ""]
     return "\n".join(lines), info, dg
 
 
